@@ -80,7 +80,10 @@ impl Drop for TestNode {
     fn drop(&mut self) {
         self.handler.stop();
         if let Some(mut t) = self.task.take() {
-            t.wait();
+            // joining a node thread that panicked panics again: never let that escape a Drop
+            if std::panic::catch_unwind(std::panic::AssertUnwindSafe(|| t.wait())).is_err() {
+                std::mem::forget(t);
+            }
         }
     }
 }
@@ -275,10 +278,18 @@ fn run_scenario(sc: &Scenario, rng: &mut Rng) -> Result<(Vec<usize>, Vec<Vec<u8>
                     1 | 2 => cuts.push(off + p + m.len()),
                     3 => {
                         // adversarial: around and inside every prefix
-                        for d in [off + 1, off + p, off + p + 1] {
-                            if rng.chance(2, 3) {
+                        // every position inside and right after the prefix (1|1|1 cuts of a
+                        // 3-byte prefix included)
+                        for d in off + 1..=off + p + 1 {
+                            if rng.chance(3, 4) {
                                 cuts.push(d);
                             }
+                        }
+                    }
+                    4 => {
+                        // every byte of the prefix in its own write
+                        for d in off + 1..=off + p {
+                            cuts.push(d);
                         }
                         if m.len() > 2 && rng.chance(1, 2) {
                             cuts.push(off + p + rng.range(1, m.len() as u64 - 1) as usize);
@@ -297,7 +308,7 @@ fn run_scenario(sc: &Scenario, rng: &mut Rng) -> Result<(Vec<usize>, Vec<Vec<u8>
                 s.flush().ok();
                 prev = c;
                 if sc.shape >= 2 {
-                    std::thread::sleep(Duration::from_micros(if sc.shape == 2 { 2000 } else { 300 }));
+                    std::thread::sleep(Duration::from_micros(if sc.shape == 2 { 2000 } else if sc.shape == 4 { 20_000 } else { 1200 }));
                 }
             }
             cuts_used = cuts;
@@ -368,7 +379,10 @@ fn run_scenario(sc: &Scenario, rng: &mut Rng) -> Result<(Vec<usize>, Vec<Vec<u8>
 }
 
 fn e2e_row(sc: &Scenario, rng: &mut Rng) -> (String, String, String, String) {
-    let res = run_scenario(sc, rng);
+    let panics_before = panics();
+    let res = std::panic::catch_unwind(std::panic::AssertUnwindSafe(|| run_scenario(sc, rng)))
+        .unwrap_or_else(|_| Err("harness thread panicked".into()));
+    let node_panicked = panics() > panics_before;
     let tags = format!(
         "{}{}>{}{},shape{}{}{}",
         sc.t,
@@ -405,7 +419,16 @@ fn e2e_row(sc: &Scenario, rng: &mut Rng) -> (String, String, String, String) {
             else {
                 (show_outs(&observed), observed == sc.msgs)
             };
-            (case, imp, if ok { "ok".into() } else { format!("FAIL received {} of {} messages / mismatch", observed.len(), sc.msgs.len()) }, tags)
+            let verdict = if node_panicked {
+                "FAIL a node thread panicked".to_string()
+            }
+            else if ok {
+                "ok".into()
+            }
+            else {
+                format!("FAIL received {} of {} messages / mismatch", observed.len(), sc.msgs.len())
+            };
+            (case, imp, verdict, tags)
         }
     }
 }
@@ -455,6 +478,13 @@ fn gen_e2e(out: &mut impl std::io::Write, seed: u64, n: u64, big: bool, which: &
     if which.contains('W') {
         for (s, r, c) in [(Peer::Node, Peer::Node, true), (Peer::Node, Peer::Node, false), (Peer::Raw, Peer::Node, true), (Peer::Node, Peer::Raw, true)] {
             scenarios.push(Scenario { t: 'W', sender: s, receiver: r, sender_connects: c, msgs: (0..3).map(|i| make_msg(i, 10)).collect(), shape: 0, fragment: false });
+        }
+    }
+    if which.contains('F') {
+        // every byte of a 2-, 3- and 4-byte prefix in a separate write, then silence
+        for sizes in [vec![200usize, 10], vec![16384, 10], vec![20000, 0, 10], vec![1 << 21, 10]] {
+            let msgs = sizes.iter().enumerate().map(|(i, s)| make_msg(i, *s)).collect();
+            scenarios.push(Scenario { t: 'F', sender: Peer::Raw, receiver: Peer::Node, sender_connects: true, msgs, shape: 4, fragment: false });
         }
     }
     for _ in 0..n {
